@@ -18,6 +18,12 @@ A *pipeline case* is a dict:
              `disk` / `flips` when the reader makes its n-th read() call (it is then still inside an earlier file)
   hash_fault None | [[hasher name, n], …]   (the n-th sha1() call made by that hasher thread raises
              MemoryError inside HasherPool._handle_piece; n counts from 1; added for C01)
+  os_fault   None | {'op': 'close'|'seek', 'nth': n, 'errno': e}   the n-th close() / seek() call on a content file (counted
+             over all content files, from 1) raises OSError(e); close() really closes the file first
+             | {'op': 'open'|'stat', 'file': i, 'errno': e}   open() / os.path.getsize() of content file i raises OSError(e)
+             (added in round 6 for C03/C04; the bookkeeping is returned as obs['os_fault'])
+  arg_fault  None | {'arg': 'callback'|'interval'|'threads', 'value': tag}   generate()/verify() is called with an argument
+             of the wrong type (see ARG_VALUES); everything else as usual
   max_steps
 """
 import errno
@@ -134,6 +140,48 @@ def interval_value(c):
 CANCEL_ANSWERS = [True, False, 0, '', (), 0.0, 'stop', 1]
 
 
+class _OsFaultFile(_FaultyFile):
+    """as _FaultyFile; additionally the n-th close() / seek() call (counted over all content files) fails"""
+
+    def __init__(self, fh, plan, osplan):
+        super().__init__(fh, plan)
+        self._os = osplan
+
+    def _hit(self, op):
+        o = self._os
+        o['calls'][op] = o['calls'].get(op, 0) + 1
+        if o['op'] == op and o.get('nth') == o['calls'][op]:
+            o['fired'] = True
+            o['fired_at_step'] = o['step']()
+            o['fired_file'] = o['index_of'].get(self._fh.name, -1)
+            return True
+        return False
+
+    def close(self):
+        self._fh.close()
+        if self._hit('close'):
+            raise OSError(self._os.get('errno', errno.EIO), 'injected close error', self._fh.name)
+
+    def seek(self, *a):
+        if self._hit('seek'):
+            raise OSError(self._os.get('errno', errno.EIO), 'injected seek error', self._fh.name)
+        return self._fh.seek(*a)
+
+
+class _NotCallable:
+    """an object that is neither callable nor falsy"""
+
+
+def arg_value(tag, threads):
+    """the value behind an `arg_fault` tag (json-able cases carry the tag only)"""
+    return {
+        'cb-str': 'progress', 'cb-int': 7, 'cb-tuple': (1, 2), 'cb-object': _NotCallable(),
+        'cb-arity0': (lambda: None), 'cb-arity1': (lambda x: None),
+        'iv-str': '1', 'iv-none': None, 'iv-object': _NotCallable(), 'iv-list': [1],
+        'th-half': threads + 0.5, 'th-whole': float(threads),
+    }[tag]
+
+
 def run_case(torf, wd, c):
     """returns observation dict"""
     from torf import _generate as G
@@ -192,6 +240,41 @@ def run_case(torf, wd, c):
     if c.get('read_fault') is not None or c.get('count_reads') or c.get('late'):
         import builtins
         S.open = lambda p, mode='r', *a, **k: _FaultyFile(builtins.open(p, mode, *a, **k), plan)
+    osplan = None
+    saved_os = S.os
+    if c.get('os_fault') is not None:
+        import builtins
+        osplan = dict(c['os_fault'], calls={}, fired=False, fired_at_step=None, fired_file=None,
+                      step=lambda: len(sched.trace), index_of=index_of)
+        fpath = None
+        if osplan['op'] in ('open', 'stat'):
+            fpath = os.path.join(top, *files[osplan['file']]['path'])
+
+        def os_open(p, mode='r', *a, **k):
+            if osplan['op'] == 'open' and str(p) == fpath:
+                osplan['calls']['open'] = osplan['calls'].get('open', 0) + 1
+                osplan['fired'], osplan['fired_at_step'], osplan['fired_file'] = True, len(sched.trace), osplan['file']
+                raise OSError(osplan.get('errno', errno.EIO), 'injected open error', str(p))
+            return _OsFaultFile(builtins.open(p, mode, *a, **k), plan, osplan)
+        S.open = os_open
+        if osplan['op'] == 'stat':
+            import types
+
+            def getsize(p):
+                if str(p) == fpath:
+                    osplan['calls']['stat'] = osplan['calls'].get('stat', 0) + 1
+                    osplan['fired'], osplan['fired_at_step'], osplan['fired_file'] = True, len(sched.trace), osplan['file']
+                    raise OSError(osplan.get('errno', errno.EIO), 'injected stat error', str(p))
+                return os.path.getsize(p)
+
+            class _Fwd:
+                def __init__(self, real, **over):
+                    self.__dict__['_real'] = real
+                    self.__dict__.update(over)
+
+                def __getattr__(self, n):
+                    return getattr(self._real, n)
+            S.os = _Fwd(os, path=_Fwd(os.path, getsize=getsize))
     raw_plan = None
     if c.get('raw_fault') is not None:
         import copy
@@ -230,14 +313,16 @@ def run_case(torf, wd, c):
 
     res = {}
 
+    kw = {'threads': c['threads'], 'callback': user_cb if cbspec else None, 'interval': interval_value(c)}
+    if c.get('arg_fault') is not None:
+        kw[c['arg_fault']['arg']] = arg_value(c['arg_fault']['value'], c['threads'])
+
     def main():
         try:
             if c['mode'] == 'generate':
-                res['ret'] = t.generate(threads=c['threads'], callback=user_cb if cbspec else None,
-                                        interval=interval_value(c))
+                res['ret'] = t.generate(**kw)
             else:
-                res['ret'] = t.verify(top, threads=c['threads'], callback=user_cb if cbspec else None,
-                                      interval=interval_value(c))
+                res['ret'] = t.verify(top, **kw)
         except shim._Abort:
             pass                     # unwound by the scheduler after a deadlock/livelock/budget outcome: no result
         except BaseException as e:   # noqa
@@ -248,6 +333,7 @@ def run_case(torf, wd, c):
     finally:
         G.threading, G.queue, G.time_monotonic = saved
         G.sha1 = saved_sha1
+        S.os = saved_os
         if saved_open is None:
             S.__dict__.pop('open', None)
         else:
@@ -263,6 +349,11 @@ def run_case(torf, wd, c):
         'read_calls': plan['calls'], 'fault_fired': plan['fired'], 'late_done': plan.get('late_done', False),
         'hash_fault_fired': hash_plan['fired'],
         'raw_fault': raw_plan,
+        'os_fault': None if osplan is None else dict(
+            {k: osplan[k] for k in ('op', 'calls', 'fired', 'fired_file')},
+            # index into obs['trace'] (which leaves out main's own `begin` entry)
+            fired_at_step=None if osplan['fired_at_step'] is None else osplan['fired_at_step'] - sum(
+                1 for e in sched.trace[:osplan['fired_at_step']] if e[0] == 'main' and e[1] == 'begin')),
         'gate_nows': gate_nows,
         'structure': {'pq_max': sched.queues[0].maxsize if sched.queues else None,
                       'hq_max': sched.queues[1].maxsize if len(sched.queues) > 1 else None},
